@@ -144,7 +144,7 @@ theorem fu_roundtrip_lal (hevc : Bool) (rate pt ssrc maxSize seq ts : Nat) (nal 
     (hr : 1000 ≤ rate ∧ rate < 4294967296000) (hs : seq < 65536) (hwf : NalWF hevc nal maxSize) :
     (protoAvcHevc hevc rate).tryUnpackOne
         ((packLoop pt ts ssrc seq (nalPayloads hevc nal maxSize)).map (posOf (protoAvcHevc hevc rate)) ++ T)
-      = .ok (some ⟨[{ ts := ts / (rate / 1000), payload := be32 nal.length ++ nal }],
+      = .ok (some ⟨[{ ts := msOf rate ts, payload := be32 nal.length ++ nal }],
                    (seq + (packLoop pt ts ssrc seq (nalPayloads hevc nal maxSize)).length - 1) % 65536, T,
                    (packLoop pt ts ssrc seq (nalPayloads hevc nal maxSize)).length⟩) :=
   (unit_video hevc rate pt ssrc maxSize seq ts nal hr hs hwf).a1 T
